@@ -2,7 +2,7 @@ SPECIFICATION Spec
 CONSTANTS
   DEVS <- c_CodeDevs
   MAXOPS = 1
-  BASES = {"B0", "B1"}
+  BASES = {"B0", "B1", "B2"}
   CHAINS = {"main", "test"}
   REJBUDGET = 99
 INVARIANTS EmitAtDepth
